@@ -236,6 +236,65 @@ func runC20(c *Ctx) {
 		}
 	}
 
+	// no way of consuming the body goes round the signalling Read: every use of the embedded body is the
+	// Read inside the wrapper's Read or the Close inside its Close; any other consumer (a WriteTo fast
+	// path copying from the embedded body, an accessor handing it out) must raise the signal itself
+	// before it returns
+	{
+		var fEmb *types.Var
+		st := twrc.Underlying().(*types.Struct)
+		for i := 0; i < st.NumFields(); i++ {
+			if st.Field(i).Embedded() && isNamed(st.Field(i).Type(), "io", "ReadCloser") {
+				fEmb = st.Field(i)
+			}
+		}
+		isDo := func(in ssa.Instruction) bool {
+			ci, ok := in.(*ssa.Call)
+			return ok && calleeName(ci) == "(*sync.Once).Do"
+		}
+		for _, u := range p.uses(fEmb) {
+			if u.Kind == "store" {
+				continue
+			}
+			if u.Kind == "invoke" {
+				if ci, ok := u.At.(ssa.CallInstruction); ok {
+					mn := ci.Common().Method.Name()
+					if (mn == "Read" || mn == "Close") && u.Fn.Name() == mn && u.Fn.Signature.Recv() != nil {
+						continue
+					}
+				}
+			}
+			construct := fmt.Sprintf("%s: the wrapped body is used outside the signalling Read/Close", fname(u.Fn))
+			ret := reachFrom(u.At, isReturn, isDo)
+			// a deferred raise, registered on every path before the use, runs at every return
+			deferredDo := func(in ssa.Instruction) bool {
+				d, ok := in.(*ssa.Defer)
+				if !ok {
+					return false
+				}
+				if calleeName(d) == "(*sync.Once).Do" {
+					return true
+				}
+				for _, g := range c.funcsOf(d.Common().Value) {
+					found := false
+					allInstrs(g, func(x ssa.Instruction) {
+						if isDo(x) {
+							found = true
+						}
+					})
+					if found {
+						return true
+					}
+				}
+				return false
+			}
+			if ret != nil && mustPrecede(u.Fn, deferredDo, u.At) {
+				ret = nil
+			}
+			c.check(ret == nil, "R20.1", construct, c.ipos(u.At), "raises the consumed signal before returning", "the wrapped body is consumed on a path that goes round the wrapper's Read (e.g. an io.WriterTo fast path copying from the embedded body) and returns without raising the consumed signal: the bytes arrive, the call returns, but the uploading HTTP request never completes")
+		}
+	}
+
 	// ---- R20.6
 	c.ruleOpt("R20.6", "no single Read is taken for the whole stream (a Read may return fewer bytes than asked for)")
 	c.shortReadRule("R20.6", p.Httpio.Pkg)
@@ -728,9 +787,10 @@ func (c *Ctx) onceGuard(fn *ssa.Function, depth int) (*types.Var, bool) {
 	}
 	for _, mc := range p.closure[fn] {
 		for _, ref := range *mc.Referrers() {
-			switch x := ref.(type) {
+			switch ref.(type) {
 			case *ssa.DebugRef:
-			case *ssa.Call:
+			case *ssa.Call, *ssa.Defer:
+				x := ref.(ssa.CallInstruction)
 				if x.Common().Value == ssa.Value(mc) {
 					if !merge(c.onceGuard(x.Parent(), depth+1)) {
 						return nil, false
